@@ -4982,3 +4982,39 @@ Proof.
     apply in_map_iff. exists rid. split; [reflexivity|]. unfold sent_ids. apply in_flat_map. exists (OSent rid). split; [exact Hs|left; reflexivity]. }
   rewrite (w_fun _ _ _ _ J rid x _ Hx Hin) in Hp. exact Hp.
 Qed.
+
+(* ------------------------------------------------------------------ bounded event channel *)
+Lemma relay_step_keeps cap st m :
+  rl_delivered (relay_step cap st m) ++ rl_queue (relay_step cap st m) ++ rl_pending (relay_step cap st m)
+  = rl_delivered st ++ rl_queue st ++ rl_pending st /\
+  (length (rl_queue st) <= cap -> length (rl_queue (relay_step cap st m)) <= cap)%nat.
+Proof.
+  destruct st as [p q d]. destruct m; cbn [relay_step rl_pending rl_queue rl_delivered].
+  - destruct p as [|x p]; [auto|]. destruct (Nat.ltb (length q) cap) eqn:E; cbn [rl_pending rl_queue rl_delivered]; [|auto].
+    apply Nat.ltb_lt in E. split; [rewrite <- !app_assoc; reflexivity|]. intros _. rewrite app_length. cbn [length]. lia.
+  - destruct q as [|x q]; [auto|]. cbn [rl_pending rl_queue rl_delivered]. split; [rewrite <- !app_assoc; reflexivity|].
+    cbn [length]. lia.
+Qed.
+
+Theorem relay_nothing_lost cap o ms :
+  let st := relay_run cap o ms in
+  rl_delivered st ++ rl_queue st ++ rl_pending st = o /\ (length (rl_queue st) <= cap)%nat.
+Proof.
+  unfold relay_run.
+  assert (H : forall st, (length (rl_queue st) <= cap)%nat ->
+     let st' := fold_left (relay_step cap) ms st in
+     rl_delivered st' ++ rl_queue st' ++ rl_pending st' = rl_delivered st ++ rl_queue st ++ rl_pending st /\
+     (length (rl_queue st') <= cap)%nat).
+  { induction ms as [|m ms IH]; intros st L; cbn [fold_left]; [auto|].
+    destruct (relay_step_keeps cap st m) as [E L']. destruct (IH (relay_step cap st m) (L' L)) as [E2 L2].
+    split; [rewrite E2; exact E|exact L2]. }
+  destruct (H (mkRelay o [] []) (Nat.le_0_l _)) as [E L]. cbn [rl_delivered rl_queue rl_pending app] in E. auto.
+Qed.
+
+(* dial() refused at once (no address, own peer id, manager gone): exactly one RequestFailed *)
+Lemma dial_refused_one_failure s p len tag fb ok sid :
+  memN p (peers s) = false ->
+  snd (h_send s p true len tag fb ok false sid) = [OSent (next_rid s); OFail (next_rid s) E_DIAL_IMMEDIATE] /\
+  dials (fst (h_send s p true len tag fb ok false sid)) = dials s /\
+  active (fst (h_send s p true len tag fb ok false sid)) = active s.
+Proof. intros H. unfold h_send. simp_sets. rewrite H. cbn. auto. Qed.
